@@ -70,6 +70,9 @@ class Shadow(object):
     def violation(self, *a, **k):
         pass
 
+    def wants(self, key):
+        return False
+
     def observe(self, *a):
         pass
 
